@@ -16,7 +16,7 @@ func init() {
 		Level:     "other",
 		Technique: "zero-extension rule for the fixed-width decoders; sibling agreement between the writer tables of NewRecordFormatter/parseNumWriteLayout and the reader tables of parseReadLayout/parseReadSize (name sets, byte counts, byte order, radix, verb -> Record field, text encoding objects); sign-reinterpretation rule for the reader's number stores; ownership rule for RecordReader.buf; assume/guarantee bounds proof of the fixed-width parsers against the guard in RecordReader.next; branch-fact rules for the io.EOF boundary",
 		Explanation: "(1) num-layout-agree: for every number layout name accepted by both parseNumWriteLayout and parseReadSize the writer function's emitted byte count (arity of its single append) equals the reader's readKind.size, big/little agree (descending/ascending 8-bit shifts of uint64(n) <-> binary.BigEndian/LittleEndian of the same width; single byte <-> b[0]), hexN writes N/4 nibbles with descending 4-bit shifts through a 16 digit hex alphabet and is read as N/4 bytes with ParseUint base 16, ascii is AppendInt base 10 <-> digit condition + ParseUint/ParseInt base 10 and, because AppendInt prints a sign, the reader must accept a leading '-' and parse signed (violated on the pinned tree: recorded finding), bool is \"true\"/\"false\" on both sides; names of one writer case clause map to one reader class; the accepted name sets differ only by the documented writer-only `hex` (variable width); " +
-			"(1b) zero-extend: every fixed-width reader case stores to the shared 64-bit destination the unsigned decode of exactly the layout's width (binary.{Big,Little}Endian.UintN / b[0] / strconv.ParseUint base 16 with a sufficient bit size), widened only through unsigned conversions at least as wide as the layout - no intermediate signed or narrower conversion, no arithmetic - matching the writer, which emits the low N bits of uint64(n); the sign is reinterpreted only where the consumer converts *dst to the field's signed type (rule 3); a writer that delegates to a width-parameterised helper is classified only for the recognised mask + pad-loop + strconv.AppendUint shape and must clamp the significant-digit count to >= 1 (exactly `width` digits for every value including 0); " +
+			"(1b) zero-extend: every fixed-width reader case stores to the shared 64-bit destination the unsigned decode of exactly the layout's width (binary.{Big,Little}Endian.UintN / b[0] / strconv.ParseUint base 16 with a sufficient bit size), widened only through unsigned conversions at least as wide as the layout - no intermediate signed or narrower conversion, no arithmetic - matching the writer, which emits the low N bits of uint64(n) unchanged (a writer that first passes the value through a helper that branches on it or takes min/max of it - saturation - is a violation); the sign is reinterpreted only where the consumer converts *dst to the field's signed type (rule 3); a writer that delegates to a width-parameterised helper is classified only for the recognised mask + pad-loop + strconv.AppendUint shape and must clamp the significant-digit count to >= 1 (exactly `width` digits for every value including 0); " +
 			"(2) verb-field-agree: the number/text verbs of NewRecordFormatter and parseReadLayout are compared: the Record field the writer reads for a verb is the field the reader stores for it (T/K/V: the length of the field that the lower-case verb reads with that size variable; H/h: Headers with Key/Value mapped to Key/Value on both sides and the loop bounded by the %H variable; p Partition, o Offset, e LeaderEpoch, x ProducerID, y ProducerEpoch, d Timestamp in milliseconds with the same scale constant); verb sets differ only by the documented writer-only verbs; the reader's size/value bit constants pair up (size bit == value bit << 1); " +
 			"(3) signed-reinterpret: in every reader number store the raw uint64 is converted to a signed integer type before any arithmetic (the writer emits the two's complement of a signed value); " +
 			"(4) text-encoding-agree: text modifiers accepted on both sides map to inverse functions of the same encoding object (base64.StdEncoding Encode/Decode, encoding/hex Encode/Decode, plain append / no decoder); the name sets differ only by the documented base64raw/unpack (writer) and json/re (reader); " +
@@ -325,6 +325,54 @@ func (e *c20env) writerClass(fn *types.Func) *c20w {
 		b, ok := tv.Type.Underlying().(*types.Basic)
 		return ok && b.Kind() == types.Uint64 && c19objOf(info, call.Args[0]) == nParam
 	}
+	// clampedBy: the shifted operand is n passed through a kgo helper whose
+	// result depends on a comparison / min / max of the value (saturation).
+	clampedBy := func(x ast.Expr) string {
+		x = unparen(x)
+		if be, ok := x.(*ast.BinaryExpr); ok && be.Op == token.SHR {
+			x = unparen(be.X)
+		}
+		if id, ok := x.(*ast.Ident); ok {
+			if d := singleDef(f, info.Uses[id]); d != nil {
+				x = unparen(d)
+			}
+		}
+		call, ok := x.(*ast.CallExpr)
+		if !ok || len(call.Args) < 1 || c19objOf(info, call.Args[0]) != nParam {
+			return ""
+		}
+		hf, _ := calleeObj(info, call).(*types.Func)
+		if hf == nil || hf.Pkg() == nil || hf.Pkg().Name() != "kgo" {
+			return ""
+		}
+		h := e.m.Func(keyOfObj(hf))
+		if h == nil || len(h.Decl.Type.Params.List) == 0 || len(h.Decl.Type.Params.List[0].Names) == 0 {
+			return ""
+		}
+		e.c.Touch(h)
+		hi := h.Info()
+		v := hi.Defs[h.Decl.Type.Params.List[0].Names[0]]
+		how := ""
+		ast.Inspect(h.Decl.Body, func(y ast.Node) bool {
+			switch s := y.(type) {
+			case *ast.IfStmt:
+				if mentionsObj(s.Cond, hi, v, false) {
+					how = "branches on `" + exprStr(s.Cond) + "`"
+				}
+			case *ast.CallExpr:
+				if id, ok := unparen(s.Fun).(*ast.Ident); ok && (id.Name == "min" || id.Name == "max") {
+					if _, isB := hi.Uses[id].(*types.Builtin); isB && mentionsObj(s, hi, v, false) {
+						how = "computes `" + exprStr(s) + "`"
+					}
+				}
+			}
+			return true
+		})
+		if how == "" {
+			return ""
+		}
+		return "the value is passed through " + hf.Name() + ", which " + how + " (saturation) before the bytes are taken: the layout must carry the low bytes of uint64(n) unchanged, because the reader zero-extends and the consumer reinterprets the sign - a clamped -1 epoch / producer id reads back as 0 and oversized lengths desynchronise the stream silently"
+	}
 	shiftOf := func(x ast.Expr) (int64, bool) { // u>>s or u
 		x = unparen(x)
 		if be, ok := x.(*ast.BinaryExpr); ok && be.Op == token.SHR {
@@ -422,6 +470,11 @@ func (e *c20env) writerClass(fn *types.Func) *c20w {
 		if arg, ok := convArg(a, "byte"); ok {
 			s, oks := shiftOf(arg)
 			if !oks {
+				if why := clampedBy(arg); why != "" {
+					w.viol = why
+					w.kind, w.n, w.order = "bin", len(call.Args)-1, "?"
+					return w
+				}
 				w.err = fmt.Sprintf("byte %d is `%s`, not byte(uint64(n)>>k)", i, exprStr(a))
 				return w
 			}
